@@ -29,7 +29,7 @@
    properties either: a cell is addressed by its centre (cells of an accepted
    allocation do not overlap, so the centre identifies the cell).
    Definitions only (facts in HistFacts.v). *)
-From FrameModel Require Import Num.QcTac Geometry.Rect Alloc.Alloc.
+From FrameModel Require Import Num.QcTac Geometry.Rect Alloc.Alloc Alloc.Thr.
 From Coq Require Import Arith.
 Open Scope list_scope.
 Open Scope Qc_scope.
@@ -49,12 +49,12 @@ Definition same_geom (a b : cell) : bool :=
 
 (* ---- steps of a history: one call of the public API on the k-th allocation built so far ---- *)
 Inductive hop :=
-| HApply (k : nat) (o : op)            (* b = A[k].refine(t, levels) / .uniform_refinement_depth() / .griddify(); b is kept *)
+| HApply (k : nat) (o : xop)           (* b = A[k].refine(t, levels) / .uniform_refinement_depth() / .griddify(); b is kept *)
 | HCopy (k : nat)                      (* b = Allocation([(c.rect, c.alloc, c.depth) for c in A[k].allocations]); kept *)
 | HSetFixed (k : nat) (x y : Qc) (b : bool) (after : list (list (Qc * Qc)))
       (* c.rect.fixed = b for the cell c of A[k] whose centre is (x, y);
          after = the centres of the fixed cells of every allocation, observed after the assignment *)
-| HMbr (k : nat) (t : Qc)              (* A[k].must_be_refined(t) *)
+| HMbr (k : nat) (t : thr)             (* A[k].must_be_refined(t), t a finite value, +inf, -inf or NaN (Alloc/Thr.v) *)
 | HMaxDepth (k : nat)                  (* A[k].max_refinement_depth() *)
 | HNumRect (k : nat)                   (* A[k].num_rectangles *)
 | HAreas (k : nat).                    (* A[k].area(m), A[k].center(m) for every module m *)
@@ -99,7 +99,7 @@ Fixpoint flags_ok (c0 : cell) (b : bool) (s s' : hstate) : bool :=
 Definition hstep (eps aeps q : Qc) (o : hop) (s : hstate) : hstate * hobs :=
   match o with
   | HApply k o' =>
-      match run_op eps aeps q o' (hget s k) with
+      match run_xop eps aeps q o' (hget s k) with
       | Some new => (s ++ [new], ONew (Some new))
       | None => (s, ONew None)
       end
@@ -117,7 +117,7 @@ Definition hstep (eps aeps q : Qc) (o : hop) (s : hstate) : hstate * hobs :=
           then (s', OFixed (hfixed s')) else (s, OImpossible)
       | None => (s, OImpossible)
       end
-  | HMbr k t => (s, OBool (must_be_refined t (hget s k)))
+  | HMbr k t => (s, OBool (must_be_refined_x t (hget s k)))
   | HMaxDepth k => (s, ONat (max_depth (hget s k)))
   | HNumRect k => (s, ONat (List.length (hget s k)))
   | HAreas k => (s, OAreas (areas_of (hget s k)))
